@@ -463,7 +463,9 @@ func (f *Filter) HashMatchAny(key [KeySize]byte, data [][]byte) (bool, error) {
 	b := bstream.NewBStreamReader(filterData)
 
 	var (
-		values    = make(map[uint64]struct{}, f.N())
+		// Size the map by what the filter bytes can hold (every value takes
+		// at least one bit), not by the count the serialized filter claims.
+		values    = make(map[uint64]struct{}, minUint64(uint64(f.N()), uint64(len(filterData))*8))
 		lastValue uint64
 	)
 
@@ -513,6 +515,13 @@ func (f *Filter) HashMatchAny(key [KeySize]byte, data [][]byte) (bool, error) {
 
 // readFullUint64 reads a value represented by the sum of a unary multiple of
 // the filter's P modulus (`2**P`) and a big-endian P-bit remainder.
+func minUint64(a, b uint64) uint64 {
+	if a < b {
+		return a
+	}
+	return b
+}
+
 func (f *Filter) readFullUint64(b *bstream.BStream) (uint64, error) {
 	var quotient uint64
 
